@@ -261,6 +261,9 @@ class Parser:
 
     def parse_data(self) -> List[Dict]:
         self.tables: List[Dict] = []
+        self.statement = None
+        self.block_comments = []
+        self.comments = []
         data = self.pre_process_data(self.data)
         regex_n = r"((?!\'[\w]*[\\']*[\w]*)\\n(?![\w]*[\\']*[\w]*\'))"
         data = data.replace("\\t", "")
